@@ -149,8 +149,12 @@ func newBuilderFlow(p *Program) *builderFlow {
 	root.get(it, entry.Params[1]).pts[keys] = true
 	root.get(it, entry.Params[2]).labels["values"] = true
 	opts := it.obj("OPTS", "seed", entry.Params[3].Type(), entry.Pos(), "")
-	cb := it.obj("CALLERBOOL", "seed", types.Typ[types.Bool], entry.Pos(), "")
-	opts.cell("*").pts[cb] = true
+	if ost, ok := opt.Underlying().(*types.Struct); ok {
+		for i := 0; i < ost.NumFields(); i++ {
+			cb := it.obj("CALLERBOOL."+ost.Field(i).Name(), "seed", types.Typ[types.Bool], entry.Pos(), "")
+			opts.cell("*." + ost.Field(i).Name()).pts[cb] = true
+		}
+	}
 	root.get(it, entry.Params[3]).pts[opts] = true
 	bf.passes = it.solve()
 	if len(it.recursed) > 0 {
